@@ -182,22 +182,37 @@ def r2(ctx):
     calls = [c for c in calls_in(f.node) if callee_is(c, "expired_attribute_loader")]
     ctx.require(len(calls) == 1 and len(calls[0].args) >= 2 and isinstance(calls[0].args[1], ast.Name), "_load_expired: expired_attribute_loader(self, <names>, passive) not found")
     nm = calls[0].args[1].id
-    defs = [v for n, v, s in name_stores(f.node) if n == nm]
+    all_defs: Dict[str, List[Optional[ast.expr]]] = {}
+    for n_, v_, s_ in name_stores(f.node):
+        all_defs.setdefault(n_, []).append(v_)
     problems = []
     seeds = 0
-    for v in defs:
-        if v is None:
-            problems.append("bound in a way that is not understood")
-            continue
-        txt = unparse(v)
-        is_seed = isinstance(v, ast.Call) and callee_is(v, "self.expired_attributes.intersection") and [dotted(a) for a in v.args] == ["self.unmodified"]
-        is_seed = is_seed or (isinstance(v, ast.Call) and callee_is(v, "self.unmodified.intersection") and [dotted(a) for a in v.args] == ["self.expired_attributes"])
-        is_seed = is_seed or (isinstance(v, ast.Call) and callee_is(v, "self.unmodified_intersection") and [dotted(a) for a in v.args] == ["self.expired_attributes"])
-        narrowing = isinstance(v, ast.Call) and isinstance(v.func, ast.Attribute) and v.func.attr in ("difference", "intersection") and dotted(v.func.value) == nm
-        if is_seed:
-            seeds += 1
-        elif not narrowing:
-            problems.append(f"`{nm} = {txt[:70]}`")
+
+    def is_seed(v):
+        return isinstance(v, ast.Call) and (
+            (callee_is(v, "self.expired_attributes.intersection") and [dotted(a) for a in v.args] == ["self.unmodified"])
+            or (callee_is(v, "self.unmodified.intersection") and [dotted(a) for a in v.args] == ["self.expired_attributes"])
+            or (callee_is(v, "self.unmodified_intersection") and [dotted(a) for a in v.args] == ["self.expired_attributes"]))
+
+    def judge_name(name, seen):
+        """every binding of `name` is the seed, or a narrowing (.difference / .intersection) of a name judged the same way (the
+        set may travel through several locals, e.g. after a helper that computes it was inlined)."""
+        nonlocal seeds
+        if name in seen:
+            return
+        seen.add(name)
+        for v in all_defs.get(name, [None]):
+            if v is None:
+                problems.append(f"`{name}` bound in a way that is not understood")
+            elif is_seed(v):
+                seeds += 1
+            elif isinstance(v, ast.Name) and v.id in all_defs:
+                judge_name(v.id, seen)
+            elif isinstance(v, ast.Call) and isinstance(v.func, ast.Attribute) and v.func.attr in ("difference", "intersection") and isinstance(v.func.value, ast.Name) and v.func.value.id in all_defs:
+                judge_name(v.func.value.id, seen)
+            else:
+                problems.append(f"`{name} = {unparse(v)[:70]}`")
+    judge_name(nm, set())
     ctx.check(seeds >= 1 and not problems, f"{f.key}:loads-expired-and-unmodified-only",
               f"the set of attributes handed to the unexpire load is not expired_attributes & unmodified, only narrowed: {problems or 'no seed'} -- an attribute "
               "that was assigned after it expired (a pending change) is overwritten with the database value, or a non-expired attribute is reloaded",
@@ -493,6 +508,7 @@ def r5(ctx):
         if bad:
             srcs = [a for a in range(len(g.nodes)) if any(lab == "exc" and b != g.raise_exit for b, lab in g.succ.get(a, ()))]
             w = g.witness(srcs, bad, (), None, lambda a, b, lab: lab == "exc")
+            w = g.describe_path(w) if w else None
         ctx.check(not bad, f"{k}:expired-set-shrinks-only-on-normal-completion",
                   f"`{unparse(g.node(bad[0]).stmt)[:70] if bad else ''}` runs although an earlier statement raised (exception cleanup: finally / except): when the load of "
                   "the expired attributes fails (dropped connection, lock timeout, ObjectDeletedError) they are no longer in the instance dict AND no longer marked "
@@ -896,3 +912,13 @@ R.mutant("benign-populate-full-inverted-and-del", LOADING,
                       "        else:\n            for attr_key, flag in populators[\"expire\"]:\n                if attr_key in dict_:\n                    del dict_[attr_key]\n                if not flag:\n                    continue\n                state.expired_attributes.add(attr_key)\n"), None)
 R.mutant("benign-populate-partial-continue-style", LOADING,
          sub("            if key in to_load:\n                dict_.pop(key, None)\n                if set_callable:\n                    state.expired_attributes.add(key)\n", "            if key not in to_load:\n                continue\n            dict_.pop(key, None)\n            if set_callable:\n                state.expired_attributes.add(key)\n"), None)
+_LE_HELPERS = ("    def _expired_to_load(self) -> Set[str]:\n        toload = self.expired_attributes.intersection(self.unmodified)\n        return toload.difference(\n            attr for attr in toload if not self.manager[attr].impl.load_on_unexpire\n        )\n\n"
+               "    def _unexpire_finished(self) -> None:\n        pending = self.expired_attributes\n        pending.clear()\n\n    @property\n    def unmodified(self) -> Set[str]:\n")
+_LE_BODY_OLD = ("        toload = self.expired_attributes.intersection(self.unmodified)\n        toload = toload.difference(\n            attr\n            for attr in toload\n            if not self.manager[attr].impl.load_on_unexpire\n        )\n\n" + _LE_OLD)
+# _load_expired no longer mentions the set itself: both the seed set and the removal live in helpers (found through the caller's try statement)
+R.mutant("load-expired-all-in-helpers-cleanup-from-finally", STATE, chain(
+    sub(_LE_BODY_OLD, "        toload = self._expired_to_load()\n        try:\n            self.manager.expired_attribute_loader(self, toload, passive)\n        finally:\n            self._unexpire_finished()\n"),
+    sub("    @property\n    def unmodified(self) -> Set[str]:\n", _LE_HELPERS)), "C46-R5")
+R.mutant("benign-load-expired-all-in-helpers", STATE, chain(
+    sub(_LE_BODY_OLD, "        toload = self._expired_to_load()\n        try:\n            self.manager.expired_attribute_loader(self, toload, passive)\n        except orm_exc.ObjectDeletedError:\n            raise\n        self._unexpire_finished()\n"),
+    sub("    @property\n    def unmodified(self) -> Set[str]:\n", _LE_HELPERS)), None)
